@@ -6,6 +6,8 @@ import TaurexModel.Factory
 namespace Taurex.C15L
 open Taurex.Factory
 
+deriving instance DecidableEq for Except
+
 /-! ### lookup / candidates -/
 
 theorem lookup_eq_head_candidates (cls : List Klass) (kw : String) :
@@ -245,6 +247,18 @@ theorem mapM_toFloat_fix (ns : List Scalar) (h : ∀ n ∈ ns, isNum n = true) :
     rw [List.mapM_cons, toFloat_of_isNum x (h x List.mem_cons_self),
       ih (fun n hn => h n (List.mem_cons_of_mem _ hn))]
     rfl
+
+theorem transform_str (s : String) : transform (.scalar (.str s)) =
+    if trueWords.contains (lower s) then .scalar (.bool true)
+    else if falseWords.contains (lower s) then .scalar (.bool false)
+    else match parseNumber s with
+      | some n => .scalar n
+      | none => .scalar (.str s) := rfl
+
+theorem transform_list (l : List Scalar) : transform (.list l) =
+    match l.mapM toFloat with
+    | some ns => .list ns
+    | none => .list l := rfl
 
 /-! ### `split('+')` -/
 
